@@ -331,10 +331,18 @@ class TreeGen:
 
     def node(self, depth, budget):  # noqa: C901
         rng = self.rng
-        if rng.random() < self.p.none_p:
-            return D('none')
-        if depth >= self.p.max_depth or budget[0] <= 0 or rng.random() < 0.28 + 0.08 * depth:
-            return self.leaf()
+        if depth == 0:
+            # a tree that is a single leaf / None is a corner worth keeping, but not a third of all cases
+            r0 = rng.random()
+            if r0 < 0.02:
+                return D('none')
+            if r0 < 0.06 or budget[0] <= 0:
+                return self.leaf()
+        else:
+            if rng.random() < self.p.none_p:
+                return D('none')
+            if depth >= self.p.max_depth or budget[0] <= 0 or rng.random() < 0.28 + 0.08 * depth:
+                return self.leaf()
         kinds, weights = zip(*self.p.weights.items())
         k = rng.choices(kinds, weights)[0]
         r = rng.random()
@@ -827,7 +835,24 @@ def neutral_edit(desc: D, rng):
     return out, n
 
 
-BREAK_EDITS = ('kind', 'arity+', 'arity-', 'key', 'ntclass', 'meta', 'node2leaf', 'none2leaf', 'leaf2none', 'none2node')
+BREAK_EDITS = ('kind', 'kindx', 'rebracket', 'arity+', 'arity-', 'key', 'ntclass', 'meta', 'node2leaf', 'none2leaf', 'leaf2none', 'none2node')
+SEQ_CUSTOM = (U.CSeq, U.CList, U.CShadow, U.CShadow2, U.CUser)  # custom nodes of any arity built from (kids, meta)
+
+
+def _var_arity(node):
+    return node.k in ('tuple', 'list', 'deque') or (node.k == 'custom' and node.cls in SEQ_CUSTOM)
+
+
+def _retarget_options(node, rng):
+    """Other node types that can hold the same children: (k, cls, meta) triples."""
+    n = len(node.items)
+    opts = []
+    if node.k in ('tuple', 'list', 'deque', 'nt', 'ss') or (node.k == 'custom' and node.cls in SEQ_CUSTOM):
+        opts += [('tuple', None, None), ('list', None, None), ('deque', None, rng.choice([None, n + 3]))]
+        opts += [('nt', c, None) for c in U.NAMEDTUPLES if len(c._fields) == n]
+        opts += [('ss', c, None) for c in U.STRUCTSEQS if U.STRUCTSEQ_ARITY[c] == n]
+        opts += [('custom', c, node.meta if node.k == 'custom' else None) for c in SEQ_CUSTOM]
+    return [o for o in opts if (o[0], o[1]) != (node.k, node.cls)]
 
 
 def breaking_edit(desc: D, rng, only=None):  # noqa: C901
@@ -838,11 +863,34 @@ def breaking_edit(desc: D, rng, only=None):  # noqa: C901
     rng.shuffle(nodes)
     edits = [e for e in BREAK_EDITS if only is None or e in only]
     rng.shuffle(edits)
+    packed = {id(c) for n in nodes if n.k == 'partial' for c in n.items}  # the (args, keywords) containers of a partial keep their types
     for e in edits:
         for node in nodes:
             if e == 'kind' and node.k in ('tuple', 'list'):
                 node.k = 'list' if node.k == 'tuple' else 'tuple'
                 return out, e
+            if e == 'kindx' and id(node) not in packed:
+                # any other node type over the same children: sequence <-> deque <-> namedtuple <-> struct sequence <-> custom node,
+                # a mapping <-> a custom mapping node / the list of its values
+                if node.k in DICTS and node.items:
+                    if all(type(k) is str for k, _ in node.items) and rng.random() < 0.5:
+                        node.k, node.cls, node.meta, node.keystyle = 'cmap', U.CMap, None, None
+                    else:
+                        node.items = [c for _, c in node.items]
+                        node.k, node.cls, node.meta, node.keystyle = 'list', None, None, None
+                    return out, e
+                opts = _retarget_options(node, rng)
+                if opts:
+                    node.k, node.cls, node.meta = rng.choice(opts)
+                    return out, e
+            if e == 'rebracket' and _var_arity(node) and id(node) not in packed:
+                # same nodes, same leaves, same post-order sequence of node types - only the arities differ: P(C(x, y)) -> P(x, C(y))
+                for i, c in enumerate(node.items):
+                    if _var_arity(c) and c.items and id(c) not in packed:
+                        node.items.insert(i, c.items.pop(0))
+                        if node.k == 'deque' and node.meta is not None:
+                            node.meta = max(node.meta, len(node.items))
+                        return out, e
             if e == 'arity+' and node.k in ('tuple', 'list', 'deque', 'dict', 'odict'):
                 if node.k in DICTS:
                     all_str = all(type(k) is str for k, _ in node.items)
